@@ -5,3 +5,5 @@ import SPProofs.Properties.C12
 import SPProofs.Properties.C10
 import SPProofs.Logic.Lemmas
 import SPProofs.Properties.C11
+import SPProofs.Comb.Lemmas
+import SPProofs.Properties.C13
